@@ -64,3 +64,144 @@ def frames_identical(a, b, tol=0.0, cols=None):
         if not same_array(a[c].values, b[c].values, tol):
             return 'column %s differs: %s vs %s' % (c, a[c].values[:8], b[c].values[:8])
     return None
+
+
+# ------------------------------------------------------------------------------------------------
+# C01 / C04 / C05 oracles over a finished table (definitions taken from the property statements)
+# ------------------------------------------------------------------------------------------------
+def roles(df):
+    if 'sample_peak' in df.columns:
+        return dict(centre='peak', C='sample_peak', L='sample_last_trough', N='sample_next_trough',
+                    ZA='sample_zerox_rise', ZB='sample_zerox_decay', ZL='sample_last_zerox_decay')
+    return dict(centre='trough', C='sample_trough', L='sample_last_peak', N='sample_next_peak',
+                ZA='sample_zerox_decay', ZB='sample_zerox_rise', ZL='sample_last_zerox_rise')
+
+
+def check_rows(df, n_sig, boundary=0):
+    """C01: ordered, gap-free, inside the signal and the boundary"""
+    if len(df) < 1:
+        return 'empty table'
+    r = roles(df)
+    L, C, N, ZA, ZB, ZL = (df[r[k]].values.astype(int) for k in ('L', 'C', 'N', 'ZA', 'ZB', 'ZL'))
+    for i in range(len(df)):
+        if not (boundary < L[i] < C[i] < N[i] < n_sig - boundary):
+            return 'row %d: not boundary < last %d < centre %d < next %d < n - boundary' % (i, L[i], C[i], N[i])
+        if not (L[i] <= ZA[i] <= C[i] <= ZB[i] <= N[i]):
+            return 'row %d: midpoints %d, %d not between their extrema %d, %d, %d' % (i, ZA[i], ZB[i], L[i], C[i], N[i])
+        if not (0 <= ZL[i] <= L[i]):
+            return 'row %d: last midpoint %d after last side extremum %d' % (i, ZL[i], L[i])
+    for i in range(len(df) - 1):
+        if N[i] != L[i + 1]:
+            return 'rows %d/%d do not share their side extremum (%d vs %d)' % (i, i + 1, N[i], L[i + 1])
+    return None
+
+
+def check_shape(df, sig, amp=None, tol=1e-9):
+    """C04 against the ORIGINAL signal"""
+    r = roles(df)
+    L, C, N, ZA, ZB, ZL = (df[r[k]].values.astype(int) for k in ('L', 'C', 'N', 'ZA', 'ZB', 'ZL'))
+    exp = {'period': N - L}
+    if r['centre'] == 'peak':
+        exp.update(time_peak=ZB - ZA, time_trough=ZA - ZL, volt_peak=sig[C], volt_trough=sig[L],
+                   time_decay=N - C, time_rise=C - L, volt_decay=sig[C] - sig[N], volt_rise=sig[C] - sig[L])
+    else:
+        exp.update(time_trough=ZB - ZA, time_peak=ZA - ZL, volt_trough=sig[C], volt_peak=sig[L],
+                   time_rise=N - C, time_decay=C - L, volt_rise=sig[N] - sig[C], volt_decay=sig[L] - sig[C])
+    exp['volt_amp'] = (exp['volt_decay'] + exp['volt_rise']) / 2
+    with np.errstate(all='ignore'):
+        exp['time_rdsym'] = exp['time_rise'] / exp['period']
+        exp['time_ptsym'] = exp['time_peak'] / (exp['time_peak'] + exp['time_trough'])
+    if amp is not None:
+        exp['band_amp'] = np.array([np.mean(amp[a:b]) for a, b in zip(L, N)])
+    for k, v in exp.items():
+        exact = k.startswith('time_') and k not in ('time_rdsym', 'time_ptsym') or k == 'period'
+        if not same_array(df[k].values, v, 0.0 if exact else tol):
+            return 'column %s is not its documented definition: got %s expected %s' % (k, df[k].values[:6], np.asarray(v)[:6])
+    if not ((df['time_rdsym'].values > 0) & (df['time_rdsym'].values < 1)).all():
+        return 'time_rdsym outside (0, 1)'
+    return None
+
+
+def _ratio(a, b):
+    with np.errstate(all='ignore'):
+        return np.float64(min(a, b) if not (a != a or b != b) else np.nan) / np.float64(max(a, b) if not (a != a or b != b) else np.nan)
+
+
+def _nanmin(xs):
+    xs = [x for x in xs if x == x]
+    return min(xs) if xs else float('nan')
+
+
+def amp_consistency_ref(rises, decays, peak_centred, direction='both'):
+    n = len(rises)
+    out = np.full(n, np.nan)
+    for c in range(1, n - 1):
+        cur = _ratio(rises[c], decays[c])
+        if peak_centred:
+            last, nxt = _ratio(rises[c], decays[c - 1]), _ratio(rises[c + 1], decays[c])
+        else:
+            last, nxt = _ratio(rises[c - 1], decays[c]), _ratio(rises[c], decays[c + 1])
+        pairs = {'both': [cur, nxt, last], 'next': [cur, nxt], 'last': [cur, last]}[direction]
+        v = _nanmin(pairs)
+        if all(x != x for x in (cur, nxt, last)):
+            v = float('nan')
+        out[c] = 0.0 if v < 0 else v
+    return out
+
+
+def period_consistency_ref(periods, direction='both'):
+    n = len(periods)
+    out = np.full(n, np.nan)
+    for c in range(1, n - 1):
+        last, nxt = _ratio(periods[c], periods[c - 1]), _ratio(periods[c + 1], periods[c])
+        out[c] = {'both': min(nxt, last), 'next': nxt, 'last': last}[direction]
+    return out
+
+
+def avg_rank_ref(v):
+    v = np.asarray(v, dtype=float)
+    out = np.full(len(v), np.nan)
+    for i, x in enumerate(v):
+        if x == x:
+            out[i] = np.sum(v < x) + (np.sum(v == x) + 1) / 2.0
+    return out
+
+
+def monotonicity_ref(df, sig):
+    r = roles(df)
+    L, C, N = (df[r[k]].values.astype(int) for k in ('L', 'C', 'N'))
+    out = np.zeros(len(df))
+    for i in range(len(df)):
+        first, second = sig[L[i]:C[i] + 1], sig[C[i]:N[i] + 1]
+        if r['centre'] == 'peak':
+            rise, decay = first, second
+        else:
+            decay, rise = first, second
+        up = np.mean(np.diff(rise) > 0)
+        down = np.mean(np.diff(decay) < 0)
+        out[i] = (down + up) / 2
+    return out
+
+
+def check_burst_features(df, sig, tol=1e-12):
+    """C05"""
+    r = roles(df)
+    pk = r['centre'] == 'peak'
+    n = len(df)
+    exp = {
+        'amp_fraction': avg_rank_ref(df['volt_amp'].values) / n,
+        'amp_consistency': amp_consistency_ref(df['volt_rise'].values, df['volt_decay'].values, pk),
+        'period_consistency': period_consistency_ref(df['period'].values.astype(float)),
+        'monotonicity': monotonicity_ref(df, sig),
+    }
+    for k, v in exp.items():
+        if not same_array(df[k].values, v, tol):
+            return 'column %s is not its documented definition: got %s expected %s' % (k, df[k].values[:6], v[:6])
+    return None
+
+
+def cycles_labels_ref(df, thr, m):
+    n = len(df)
+    cols = ('amp_fraction', 'amp_consistency', 'period_consistency', 'monotonicity')
+    q = [0 < i < n - 1 and all(gt(float(df[c].values[i]), thr[c + '_threshold']) for c in cols) for i in range(n)]
+    return minrun(q, m)
